@@ -42,6 +42,15 @@ Theorem C14_construction_is_decomposition :
             end.
 Proof. exact version_new_spec. Qed.
 
+(** the same for any constructor argument (None, str, int): str(v) is what is parsed *)
+Theorem C14_construction_any_value :
+  forall v, version_new v =
+            match spec_decompose (py_str v) with
+            | Some (e, u, r) => Ok (mkV (py_str v) e (Some u) r)
+            | None => Err ValueError
+            end.
+Proof. exact version_new_any. Qed.
+
 (** str(), full_version, and the recomposition of the three components give back the string *)
 Theorem C14_recompose_id :
   forall s st, version_new (VStr s) = Ok st ->
@@ -135,6 +144,17 @@ Theorem C14_assigns_preserve_inv :
     forallb (fun r => inv (fst r)) (run_assigns st ops) = true.
 Proof. exact assigns_preserve_inv. Qed.
 
+(** reading back: the five attribute names return the stored slots, debian_version
+    being an alias of debian_revision *)
+Theorem C14_getattr_fields :
+  forall st,
+  getattr st s_full_version = Some (Some (st_full st))
+  /\ getattr st Verif.Version.Parse.s_epoch = Some (st_epoch st)
+  /\ getattr st s_upstream_version = Some (st_up st)
+  /\ getattr st s_debian_revision = Some (st_rev st)
+  /\ getattr st s_debian_version = Some (st_rev st).
+Proof. exact getattr_fields. Qed.
+
 (** * 4. the bridge to the run-time check *)
 
 (** For EVERY case (any string, any assignment sequence): if the implementation's
@@ -154,6 +174,10 @@ Example C14_nonvacuous_new :
   valid_spec s = true
   /\ version_new (VStr s) = Ok (mkV s (Some (dec "12")) (Some (dec "1:2-3")) (Some (dec "4~a+b.c")))
   /\ (exists st, version_new (VStr s) = Ok st /\ inv st = true)
+  /\ components_ok (Some (dec "12")) (dec "1:2-3") (Some (dec "4~a+b.c")) = true
+  /\ version_new (VStr (dec "1.0-")) = Err ValueError
+  /\ version_new (VInt (-3)) = Err ValueError
+  /\ version_new (VInt 15) = Ok (mkV (dec "15") None (Some (dec "15")) None)
   /\ valid_spec (dec "1.0-") = false /\ valid_spec (dec "1.0" ++ [10%N])%list = false
   /\ valid_spec [1635; 58; 49]%N = false /\ valid_spec (dec "1:") = false.
 Proof. vm_compute. repeat split. eexists. split; reflexivity. Qed.
@@ -191,6 +215,7 @@ Print Assumptions C14_accepts_iff_valid.
 Print Assumptions C14_rejects_with_ValueError.
 Print Assumptions C14_valid_spec_iff_grammar.
 Print Assumptions C14_construction_is_decomposition.
+Print Assumptions C14_construction_any_value.
 Print Assumptions C14_recompose_id.
 Print Assumptions C14_str_id.
 Print Assumptions C14_cut_points.
@@ -202,4 +227,5 @@ Print Assumptions C14_setattr_ok_or_rollback.
 Print Assumptions C14_setattr_is_spec.
 Print Assumptions C14_assigns_ok_or_rollback.
 Print Assumptions C14_assigns_preserve_inv.
+Print Assumptions C14_getattr_fields.
 Print Assumptions C14_agree_implies_holds.
